@@ -28,13 +28,16 @@ var c12values = []struct {
 
 func runC12(rc *sim.RunCtx) {
 	t := rc.T
-	w, err := world.New(rc, world.Opts{DisableConcurrency: t.Bool(1, 2)})
+	devKind := []string{"direct", "gnmi-proto", "gnmi-json", "gnmi-json_ietf"}[t.Weighted([]int{3, 2, 1, 2})]
+	w, err := world.New(rc, world.Opts{DisableConcurrency: t.Bool(1, 2), DevKind: devKind})
 	if err != nil {
 		rc.HarnessErr("world: %v", err)
 		return
 	}
 	defer w.Close()
 	si := w.SI
+	rc.Scenario("device front end: %s", devKind)
+	rc.Probe("dev-" + devKind)
 	n := 2 + t.Choose(5)
 	for step := 0; step < n; step++ {
 		time.Sleep(time.Second)
@@ -59,12 +62,20 @@ func runC12(rc *sim.RunCtx) {
 		rc.Probe("form-" + form)
 		rc.SigAdd(fmt.Sprintf("%s|%s|%s", v.leaf, lex, form))
 		rc.NonTrivial()
-		f := map[string]string{"leaf": v.leaf, "type": l.Node.Type.GetType(), "form": form, "value": lex}
+		f := map[string]string{"leaf": v.leaf, "type": l.Node.Type.GetType(), "form": form, "value": lex, "device": devKind}
 		res := ExecTx(rc, w, tx, 5*time.Second)
 		w.NoteTimer(30 * time.Second)
 		if !res.Accepted() {
 			ff := copyFields(f)
 			ff["error"] = normErr(res.Err)
+			if res.SetsAfter > res.SetsBefore {
+				if we := w.Dev.Sets[res.SetsAfter-1].WireErr; we != "" {
+					// the device could not decode what the real target sent for this value
+					ff["wire_error"] = we
+					rc.Report(sim.Item{Prop: "C12", Clause: "C12.wire-value-undecodable", Step: step, Fields: ff, Detail: fmt.Sprintf("the %s request the target built for this value cannot be decoded by the device: %s", devKind, we)})
+					continue
+				}
+			}
 			rc.Report(sim.Item{Prop: "C12", Clause: "C12.valid-value-rejected", Step: step, Fields: ff, Detail: fmt.Sprintf("a value valid for the leaf type was refused: %s %v", normErr(res.Err), res.IntentErrors)})
 			continue
 		}
@@ -144,7 +155,7 @@ func runC12(rc *sim.RunCtx) {
 func init() {
 	Register(&sim.Check{
 		ID: "C12", Level: "exploration", Run: runC12,
-		Rule: "per run 2-6 single-leaf transactions over the types container of vsim: one leaf per YANG built-in type (int8..int64, uint8..uint64 incl. values above 2^63, decimal64 with fraction-digits 1/2/18 incl. negative and fractional, boolean, empty, enumeration incl. a name with a space, identityref from two modules, union of uint8|enum|string, string with separators, leaf-lists of string/uint32/enum) x boundary and interior values x input form (typed value, string, JSON / JSON_IETF document at the root, JSON / JSON_IETF scalar or array on the leaf's own path). After each accepted transaction the value at the direct device (proto view), in the intended store, and returned by GetData in STRING/PROTO/JSON/JSON_IETF must denote the supplied datum in the harness's abstract value domain; a verbatim re-submission must send nothing. Every step is non-trivial; distinct = (leaf, value, form).",
+		Rule: "per run 2-6 single-leaf transactions over the types container of vsim: one leaf per YANG built-in type (int8..int64, uint8..uint64 incl. values above 2^63, decimal64 with fraction-digits 1/2/18 incl. negative and fractional, boolean, empty, enumeration incl. a name with a space, identityref from two modules, union of uint8|enum|string, string with separators, leaf-lists of string/uint32/enum) x boundary and interior values x input form (typed value, string, JSON / JSON_IETF document at the root, JSON / JSON_IETF scalar or array on the leaf's own path). The device is the direct one (proto view of the tree) or, in half of the runs, the REAL gnmiTarget (encodings proto / json / json_ietf) in front of an in-process gNMI client that decodes the wire SetRequest. After each accepted transaction the value at the device, in the intended store, and returned by GetData in STRING/PROTO/JSON/JSON_IETF must denote the supplied datum in the harness's abstract value domain; a verbatim re-submission must send nothing. Every step is non-trivial; distinct = (leaf, value, form).",
 		Real: append(append([]string{}, realCore...), "pkg/utils converter.go/value.go/leaf_convert.go, pkg/datastore/data_rpc.go validateUpdate"), Stub: stubCore,
 		Assume:       []string{"only the compositions the running system performs are checked (client -> datastore -> store -> device proto view -> GetData), not the cross product of pure converters; XML text from a device is not covered"},
 		QuickSeconds: 30, ThoroughSeconds: 420,
